@@ -184,7 +184,7 @@ def hammer_history(draw, n):
     """Build up failures on one user and/or one address, then probe."""
     steps = []
     mode = draw(st.sampled_from(["user", "addr", "both", "user"]))
-    target = draw(st.sampled_from(["alice", "bob", "carol", "ghost", "dis"]))
+    target = draw(st.sampled_from(["alice", "bob", "carol", "ghost", "dis", "Dan@Example.COM"]))
     proto = draw(st.sampled_from(["imap", "imap", "pop", "mix"]))
     aidx = draw(st.integers(0, 2))
 
@@ -550,6 +550,10 @@ def enumerations(tier):
         # (seeded/C18-3: a success that wipes the address's failure record)
         ("imap/3x1/w+u1right/dt1", "imap", alphabet(U3, A1, [0], [1]) + alphabet(U1, A1, [1], [1]), 8 if q else 9),
         ("pop/3x1/w+u1right/dt1", "pop", alphabet(U3, A1, [0], [1]) + alphabet(U1, A1, [1], [1]), 7 if q else 9),
+        # an account name with upper-case letters, from two addresses (seeded/C18-5: failures recorded under a
+        # normalised name that the check before authentication never looks up)
+        ("imap/1x2/rw/mixed-case/dt1", "imap", alphabet(["u4"], A2, [1, 0], [1]), 8 if q else 10),
+        ("pop/1x2/rw/mixed-case/dt1", "pop", alphabet(["u4"], A2, [1, 0], [1]), 7 if q else 9),
     ]
     return E
 
